@@ -86,6 +86,9 @@ def gen_scene(rng, n=None, tie_heavy=False):
         else:
             est = gen_spec(rng)
         est["conf"] = rng.choice([0.5, 0.75, 0.25]) if tie_heavy else rng.randint(0, 64) / 64
+        if not tie_heavy and 0 < est["conf"] < 1 and rng.random() < 0.2:
+            # distinct but within float32 resolution of a lattice value (the ranking is by the exact confidence)
+            est["conf"] += rng.choice([1, -1, 2, -3]) * 2.0 ** -rng.choice([30, 40])
         results.append({"est": est, "gt": gt})
     return {"policy": rng.choice(POLICIES), "results": results}
 
